@@ -2,11 +2,29 @@
 C19 — Reported parent, repository and child status matches the last exchange.
 Property theorems only; helper lemmas live in `KrillModel.Status.Lemmas`.
 
-All theorems are about `run s0 evs`: the status store after an arbitrary history `evs` of the
-events the CA manager produces (exchanges with their outcome, removals, restarts), started from
-any store `s0` whose cache shows what its storage holds (`Consistent`; the empty store is one,
-and every event keeps it: `consistent_reachable`).  "The most recent attempt" is expressed by
-splitting the history as `pre ++ e :: post` where nothing in `post` concerns the same entry.
+Clause → theorem table (property text of /verif/properties.jsonl; quantifier: every history of
+successful and refused exchanges – child removed at the parent, publisher removed at the server,
+identity replaced, suspended child calling in, key rolls, entitlement changes – and restarts at any
+point).  All history theorems hold for ARBITRARY event lists (`Ev`: every exchange with any
+outcome, removals, re-adding = a new exchange, restarts); the single invariant is `StatusInv`
+(`status_invariant`), preserved by every step (`status_invariant_step`); the clauses are its
+corollaries.
+
+| clause                                                                   | theorems |
+|--------------------------------------------------------------------------|----------|
+| "for every CA the status and issues views show"                          | `issues_view_is_the_failures_of_the_status_view` (issues = `opt_failure` of the same view), `restart_invariant` (cache = storage) |
+| "for each parent … a failure (with its error) exactly when the most recent synchronisation attempt failed" | `parent_view_is_most_recent_attempt` (all histories), `status_is_last_exchange`, `parent_failure_iff_last_attempt_failed`, `no_exchange_no_entry` |
+| "… and for the repository"                                               | `repo_view_is_most_recent_attempt` (all histories), `repo_status_is_last_exchange`, `repo_failure_iff_last_attempt_failed`, `failed_exchange_changes_only_last_exchange` |
+| "otherwise success together with the entitlements the parent last returned" | `entitlements_are_most_recent_list_reply` (all histories), `entitlements_are_last_returned`; last success: `last_success_is_most_recent_success` (all histories), `parent_last_success_is_last_successful` (+ `sync_records_no_vacuous_success`), `repo_last_success_is_last_successful` |
+| "the list of published objects shown equals what the publication server holds for that CA after its last successful synchronisation" | `published_list_is_server_content_partial` (equal at every moment, guard: no out-of-band change of the server's content), `published_list_covers_server_content` (NO guard: everything the server holds is shown, exactly once, with its content – the only possible deviation is additional stale entries), `published_list_never_has_duplicates`; recorded exception F-C19-3: `published_list_is_server_content_fails` |
+| "for every child the parent shows the outcome of the child's most recent request" | `child_view_is_most_recent_processed_request` (all histories), `child_last_request_partial`, `request_is_recorded_iff_not_refused_before_processing` (exactly which refusals are not recorded), `suspension_marker_is_most_recent` ; witness for the unrecorded ones: `child_last_request_fails_for_unauthenticated` |
+| "these reports are unchanged by a restart"                               | `restart_invariant`, `restart_anywhere_is_invisible`, `storage_holds_what_is_shown`, `restart_says_nothing` |
+| "removing a parent, child or CA removes its entries"                     | `removal_removes_entries`, `ca_removal_removes_entries`, `removed_child_stays_removed`, `parent_removal_removes_what_it_recorded`; re-adding: `readded_entry_shows_only_the_new_exchange` |
+| tie to the source                                                        | `source_status_writes_as_modelled`, `source_status_calls_as_modelled`, `source_status_store_as_modelled`, `delta_applied_only_on_success_reply`, `failure_setters_write_last_exchange_only` |
+
+The older theorems are about `run s0 evs` for any store `s0` whose cache shows what its storage
+holds (`Consistent`; the empty store is one, every event keeps it: `consistent_reachable`), with
+"the most recent attempt" expressed by splitting the history as `pre ++ e :: post`.
 -/
 import KrillModel.Status.Lemmas
 import KrillModel.Generated.StatusWrites
@@ -717,5 +735,178 @@ theorem failed_exchange_changes_only_last_exchange (s : Store) (h : Consistent s
 
 example : (Ev.repoDelta "a" "u" [.publish "x" "1"] (.error "pub-unknown") 3).repoAttempt? =
     some ("a", ⟨3, "u", .failure "pub-unknown"⟩) := by decide
+
+/-! ## the invariant over arbitrary histories, and the clauses as its corollaries -/
+
+/-- **`StatusInv`** holds after every history, from the empty store: cache and storage agree, every
+field of every view is what the most recent event concerning it says, no URI is listed twice. -/
+theorem status_invariant (evs : List Ev) : StatusInv evs (run Store.empty evs) := statusInv_run evs
+
+/-- It is inductive: initially true, preserved by every event whatsoever. -/
+theorem status_invariant_step (evs : List Ev) (s : Store) (h : StatusInv evs s) (e : Ev) :
+    StatusInv (evs ++ [e]) (step s e) := statusInv_step evs s h e
+
+/-- Clause "parent … failure exactly when the most recent attempt failed": scanning the history
+from its end, the first event that is a recorded attempt to talk to this parent or a removal of it
+decides – the view shows that exchange (`none` = no entry after a removal or without any attempt).
+Restarts, other parents, other CAs, the repository and children are skipped by the scan. -/
+theorem parent_view_is_most_recent_attempt (evs : List Ev) (ca p : String) :
+    ((run Store.empty evs).parent? ca p).bind (·.lastExchange) =
+      (lastTouch (Ev.parentExchangeSays ca p) evs).getD none :=
+  (statusInv_run evs).parentExchange ca p
+
+theorem repo_view_is_most_recent_attempt (evs : List Ev) (ca : String) :
+    ((run Store.empty evs).repo ca).lastExchange = (lastTouch (Ev.repoExchangeSays ca) evs).getD none :=
+  (statusInv_run evs).repoExchange ca
+
+/-- `last_success` of a parent and of the repository: the most recent *successful* attempt (or
+nothing after a removal); failed attempts are skipped by the scan. -/
+theorem last_success_is_most_recent_success (evs : List Ev) (ca : String) :
+    (∀ p, ((run Store.empty evs).parent? ca p).bind (·.lastSuccess) =
+      (lastTouch (Ev.parentSuccessSays ca p) evs).getD none) ∧
+    ((run Store.empty evs).repo ca).lastSuccess = (lastTouch (Ev.repoSuccessSays ca) evs).getD none :=
+  ⟨fun p => (statusInv_run evs).parentSuccess ca p, (statusInv_run evs).repoSuccess ca⟩
+
+/-- Clause "the entitlements the parent last returned": the payload of the most recent successful
+list query (nothing after a removal). -/
+theorem entitlements_are_most_recent_list_reply (evs : List Ev) (ca p : String) :
+    (((run Store.empty evs).parent? ca p).getD {}).classes =
+      (lastTouch (Ev.entitlementsSay ca p) evs).getD [] :=
+  (statusInv_run evs).entitlements ca p
+
+/-- Clause "for every child the parent shows the outcome of the child's most recent request": the
+most recent request of that child that reached processing (result, error, user agent, time). -/
+theorem child_view_is_most_recent_processed_request (evs : List Ev) (ca c : String) :
+    ((run Store.empty evs).child? ca c).bind (·.lastExchange) =
+      (lastTouch (Ev.childExchangeSays ca c) evs).getD none :=
+  (statusInv_run evs).childExchange ca c
+
+theorem suspension_marker_is_most_recent (evs : List Ev) (ca c : String) :
+    ((run Store.empty evs).child? ca c).bind (·.suspended) =
+      (lastTouch (Ev.suspendedSays ca c) evs).getD none :=
+  (statusInv_run evs).suspended ca c
+
+/-- Which requests reach processing: exactly those not refused before it.  The refusals before
+processing are (and are only): a remote request of an unknown child; a remote request whose
+signature does not validate against the registered identity; a local request of an unknown child
+at a parent other than the trust anchor.  Every other request – accepted or refused with any
+error, from a suspended child or not – is recorded with its outcome and user agent. -/
+theorem request_is_recorded_iff_not_refused_before_processing (parent child : String)
+    (remote parentIsTa known sigValid : Bool) (agent : Option String) (outcome : Except String Unit)
+    (now : Nat) :
+    childRequestEvents parent child remote parentIsTa known sigValid agent outcome now =
+      if refusedBeforeProcessing remote parentIsTa known sigValid then []
+      else [.childRequest parent child (if remote then agent else some "local-child") outcome now] := by
+  cases remote <;> cases parentIsTa <;> cases known <;> cases sigValid <;> rfl
+
+/-- … and a recorded request is what the parent then shows, whatever happened before. -/
+theorem processed_request_is_shown (pre : List Ev) (parent child : String)
+    (remote parentIsTa known sigValid : Bool) (agent : Option String) (outcome : Except String Unit)
+    (now : Nat) (h : refusedBeforeProcessing remote parentIsTa known sigValid = false) :
+    ((run Store.empty (pre ++ childRequestEvents parent child remote parentIsTa known sigValid agent
+        outcome now)).child? parent child).bind (·.lastExchange) =
+      some ⟨now, resultOf outcome, if remote then agent else some "local-child"⟩ := by
+  rw [request_is_recorded_iff_not_refused_before_processing, h]
+  simp only [Bool.false_eq_true, if_false]
+  rw [child_view_is_most_recent_processed_request, lastTouch_snoc]
+  simp [Ev.childExchangeSays, Ev.childAttempt?]
+
+/-- A restart says nothing about any entry: the scans skip it. -/
+theorem restart_says_nothing (ca x : String) :
+    Ev.restart.parentExchangeSays ca x = none ∧ Ev.restart.parentSuccessSays ca x = none ∧
+    Ev.restart.entitlementsSay ca x = none ∧ Ev.restart.repoExchangeSays ca = none ∧
+    Ev.restart.repoSuccessSays ca = none ∧ Ev.restart.childExchangeSays ca x = none ∧
+    Ev.restart.suspendedSays ca x = none := by
+  refine ⟨rfl, rfl, rfl, rfl, rfl, rfl, rfl⟩
+
+/-- Removing and adding again: the entry shows the new exchange only – nothing of what was
+recorded before the removal (last success, entitlements) comes back. -/
+theorem readded_entry_shows_only_the_new_exchange (pre : List Ev) (ca p uri err : String) (now : Nat) :
+    let s := run Store.empty (pre ++ [.parentRemove ca p, .parentList ca p uri true (.error err) now])
+    (s.parent? ca p).bind (·.lastExchange) = some ⟨now, uri, .failure err⟩ ∧
+    (s.parent? ca p).bind (·.lastSuccess) = none ∧ ((s.parent? ca p).getD {}).classes = [] := by
+  intro s
+  have hs : s = run Store.empty ((pre ++ [.parentRemove ca p]) ++ [.parentList ca p uri true (.error err) now]) := by
+    simp [s]
+  refine ⟨?_, ?_, ?_⟩
+  · rw [hs, parent_view_is_most_recent_attempt, lastTouch_snoc]
+    simp [Ev.parentExchangeSays, Ev.parentAttempt?]
+  · rw [hs, (last_success_is_most_recent_success _ ca).1 p, lastTouch_snoc, lastTouch_snoc]
+    simp [Ev.parentSuccessSays, Ev.parentAttempt?, Ev.removesParent]
+  · rw [hs, entitlements_are_most_recent_list_reply, lastTouch_snoc, lastTouch_snoc]
+    simp [Ev.entitlementsSay, Ev.removesParent, Ev.removesCa]
+
+/-- Clause "status and issues views": `get_ca_issues` reports the repository's `opt_failure` and,
+for every parent entry of the same view, its `opt_failure` – nothing else. -/
+theorem issues_view_is_the_failures_of_the_status_view (s : Store) (ca : String) :
+    (s.issues ca).1 = (s.repo ca).optFailure ∧
+    ∀ p err, (p, err) ∈ (s.issues ca).2 ↔
+      ∃ st, (p, st) ∈ (s.view ca).parents ∧ st.optFailure = some err := by
+  refine ⟨rfl, fun p err => ?_⟩
+  simp only [Store.issues, List.mem_filterMap]
+  constructor
+  · rintro ⟨⟨p', st⟩, hmem, h⟩
+    cases hf : st.optFailure with
+    | none => simp [hf] at h
+    | some e2 =>
+      simp only [hf, Option.map_some, Option.some.injEq, Prod.mk.injEq] at h
+      obtain ⟨rfl, rfl⟩ := h
+      exact ⟨st, hmem, hf⟩
+  · rintro ⟨st, hmem, hf⟩
+    exact ⟨(p, st), hmem, by simp [hf]⟩
+
+/-- Clause "published = server content", WITHOUT the guard: whatever happens to the server
+(publisher removed, added again, content lost) and to the CA (failures, restarts), everything the
+server holds for the CA is shown, exactly once and with its content.  So the only way the shown
+list can differ from the server's content is by additional entries the server does not hold – the
+stale entries of F-C19-3 – and `published_list_is_server_content_partial` says there are none as
+long as the server's content changes only through this CA's accepted deltas. -/
+theorem published_list_covers_server_content (ca uri : String) (hist : List WEv)
+    (hh : ∀ e ∈ hist, e.foreign ca = false) :
+    ∀ m, (wrun ca uri {} hist).server = some m →
+      Covers ((wrun ca uri {} hist).store.repo ca).published m := by
+  have key : ∀ (l : List WEv) (w : World), WorldCovers ca w → (∀ e ∈ l, e.foreign ca = false) →
+      WorldCovers ca (wrun ca uri w l) := by
+    intro l
+    induction l with
+    | nil => intro w hw _; exact hw
+    | cons e t ih =>
+      intro w hw hl
+      exact ih (wstep ca uri w e) (wstep_keeps_covers ca uri w hw e (hl e (List.mem_cons_self ..)))
+        (fun e' he' => hl e' (List.mem_cons_of_mem _ he'))
+  have h0 : WorldCovers ca ({} : World) := by
+    refine ⟨consistent_empty, fun m hm => ?_⟩
+    have : m = [] := by cases hm; rfl
+    subst this
+    exact covers_nil _
+  exact (key hist {} h0 hh).2
+
+/-- Non-vacuity / the guard made explicit: the F-C19-3 history (loss while an object is dropped)
+is admissible for `published_list_covers_server_content` – the server's content is covered, the
+stale entry is the additional one – and is exactly what the guard of
+`published_list_is_server_content_partial` excludes. -/
+example :
+    let hist : List WEv := [.sync [("mft", "1"), ("roa", "1")] 1, .publisherRemoved, .publisherAdded,
+      .sync [("mft", "2")] 2]
+    (∀ e ∈ hist, e.foreign "a" = false) ∧ (hist.any fun e => e.outOfBand) = true ∧
+    let w := wrun "a" "u" {} hist
+    (w.server.map fun m => coversB (w.store.repo "a").published m) = some true ∧
+    (w.server.map fun m => inSyncB (w.store.repo "a").published m) = some false := by decide
+
+/-- Non-vacuity of the scans on a history with a refused exchange, a removal, a re-adding and a
+restart. -/
+example :
+    let evs : List Ev := [.parentList "b" "a" "u" true (.ok [("0", [1, 2])]) 3, .parentCerts "b" "a" "u" (.ok ()) 4,
+      .parentList "b" "a" "u" true (.error "ca-child-unknown") 6, .restart, .repoList "b" "r" (.ok ()) 7]
+    lastTouch (Ev.parentExchangeSays "b" "a") evs = some (some ⟨6, "u", .failure "ca-child-unknown"⟩) ∧
+    lastTouch (Ev.parentSuccessSays "b" "a") evs = some (some 4) ∧
+    lastTouch (Ev.entitlementsSay "b" "a") evs = some [("0", [1, 2])] ∧
+    lastTouch (Ev.parentExchangeSays "b" "a") (evs ++ [.parentRemove "b" "a"]) = some none ∧
+    lastTouch (Ev.childExchangeSays "a" "b") evs = none := by decide
+
+example : refusedBeforeProcessing true false true false = true ∧ refusedBeforeProcessing true false false true = true ∧
+    refusedBeforeProcessing false false false true = true ∧ refusedBeforeProcessing false true false true = false ∧
+    refusedBeforeProcessing true false true true = false ∧ refusedBeforeProcessing false false true false = false := by
+  decide
 
 end KM.Props.C19
